@@ -69,6 +69,29 @@ func main() {
 	pf.LeakPct = 0
 	o := &eng.Opts{MaxComponents: *maxComps, Avoid: map[string]bool{}}
 	var mu sync.Mutex
+	if *shard == 0 {
+		// directed scenarios about the lock under many queries (scripted, single goroutine)
+		for _, sc := range eng.Scenarios {
+			for _, pr := range sc.Props {
+				if pr != "C13" || (sc.OnlyIf != nil && !sc.OnlyIf()) {
+					continue
+				}
+				var msgs []string
+				func() {
+					defer func() {
+						if p := recover(); p != nil {
+							msgs = append(msgs, fmt.Sprintf("scenario panicked: %v", p))
+						}
+					}()
+					msgs = sc.Run()
+				}()
+				if msgs == nil {
+					msgs = []string{}
+				}
+				res.Scenarios[sc.Name] = msgs
+			}
+		}
+	}
 	for c := *shard; c < *cases; c += *nshards {
 		if *only >= 0 && c != *only {
 			continue
